@@ -84,6 +84,14 @@ def make(case):
                     for (fname, FT, bits), ft in zip(batch, ftypes):
                         inc.add_field(fname, ft, bits=bits)
             i = j
+            if i < k and case.get("use_between"):
+                # the intermediate class is used (default instance dumped, zeros parsed and dumped) before it is extended further:
+                # whatever the reader, the writer or a generated method remembered from that state must not survive
+                try:
+                    inc().dumps()
+                    inc(bytes(n + 8)).dumps()
+                except Exception:  # noqa: BLE001  (an intermediate state may be unusable, e.g. dynamic without data)
+                    pass
         ctx.observe("split", split)
         s1, s2 = _sig(one), _sig(inc)
         ctx.check("same layout (size, alignment, offsets, names) as the one-shot definition", s1 == s2, f"{s1} vs {s2}")
@@ -309,5 +317,7 @@ def cases(tier, seed):
             if tier == "quick" and len(seq) == 2 and cfg["endian"] == ">":
                 continue
             yield {"label": "|".join(seq), "T": T, "cfg": cfg}
+            if len(seq) <= 3 and (tier != "quick" or cfg["endian"] == "<"):
+                yield {"label": "|".join(seq) + " used-between", "T": T, "cfg": cfg, "use_between": True}
     for cfg in cfgs:
         yield {"label": "self-reference", "cfg": cfg, "make": "make_selfref"}
